@@ -86,8 +86,13 @@ Print Assumptions cssparse_lexer_tok_in_lex.
        EComment: ws? comment          EToken: ws? CDO | ws? CDC          (both at the top level only)
        ECustom: ws? custom-property-name ws? ':' raw-token* ';'          (inside a ruleset; raw tokens include
                 whitespace and comments, no ';' '}' ')' ']' at bracket level 0 - raw_ok / raw_lv)
-   that nest properly (evs_ok: declarations and '}' only inside a ruleset, everything closed at the end; rulesets may
-   be nested to any depth), followed by ws?
+       EAtRule: ws? at-keyword (ws? prelude-token)* ws? ';'       EBeginAtRule: ... '{'       EEndAtRule: ws? '}'
+                (at the top level and inside the rule block of an at-rule; h = the hash parseAtRule computes from the
+                lower-cased name without vendor prefix - at_rule_h; a block is opened only for the names whose hash
+                selects a rule block: @media, @supports, @layer, @keyframes, @document - at_state h = SAtRuleRuleList)
+   that nest properly (evs_ok over the stack of open blocks: declarations and custom properties only inside a
+   ruleset, rulesets and at-rules at the top level and inside an at-rule block, nested rulesets inside rulesets, every
+   '}' closes the innermost block, everything closed at the end; any depth), followed by ws?
    (ws: a Whitespace token; selector-/value-token: any token but whitespace, comment, '{', '}', ';', with brackets
    and function parentheses balanced - toks_ok / lv_after; the first token of a top-level selector is none of CDO,
    CDC, at-keyword, custom-property name - sel_first; the first token of a nested selector is an identifier, a hash,
@@ -105,11 +110,16 @@ Print Assumptions cssparse_lexer_tok_in_lex.
    - EndRuleset; Comment with the comment as data; Token with the CDO / CDC token as data;
    - CustomProperty with the name as data and Values() = one CustomPropertyValue token whose bytes are the
      concatenation of the raw tokens, i.e. the exact source text between ':' and ';';
+   - AtRule / BeginAtRule with the lower-cased at-keyword as data and Values() = at_buf: the prelude tokens in order
+     with a single space token exactly where the source has whitespace before a token that is not ',' ':' or ')',
+     does not follow ',' ':' or '(' and is not a '(' or '[' directly after the at-keyword (so the whitespace after
+     the at-keyword is kept before a word); EndAtRule;
    and then the end-of-input report; no parse error is reported.
-   MISSING: at-rules, custom properties outside rulesets or ended by '}', comments inside rulesets (covered by the
-   well-formed-stylesheet oracle only). *)
+   MISSING: at-rules with a declaration block (@font-face, @page) or an unknown block, at-rules inside rulesets,
+   custom properties outside rulesets or ended by '}', comments inside blocks, a last declaration ended by '}'
+   instead of ';' (covered by the well-formed-stylesheet oracle only). *)
 Theorem cssparse_wellformed_partial : forall d evs w,
-  css_lex d = LexDone (concat (map ev_toks evs) ++ optws w) -> evs_ok 0 evs ->
+  css_lex d = LexDone (concat (map ev_toks evs) ++ optws w) -> evs_ok [] evs ->
   exists tr, parse_run (length evs + 1) (new_parser d false) = POk tr /\
     map view tr = map ev_unit evs ++ [(GError, TError, [], [])] /\ no_err tr.
 Proof. exact cssparse_wellformed_proof. Qed.
